@@ -4,7 +4,12 @@
    Output:
      S <token kinds> <dropped regions> <tt fixed model|E> <tt surface semantics> <tt legacy model|E> <tt dnf>
      W ... same ... <tt fixed model of the base filter|E>
-   <expr> prefix form:  .p  !e  &pe  |pe ;  primaries  <hexname>  and  (e)  *)
+   <expr> prefix form:  .p  !e  &pe  |pe ;  primaries  <hexname>  and  (e)
+   Stream k (harness c12kw.go):
+     K <stream> <site class> <store> <hex canonical query> <hex re-spelled query>
+   Output:
+     K <token kinds of the re-spelling (lex_full)> <dropped regions> <1 if both lex without drops and have the same
+       normal form (WordOps.norm) else 0> <negation flags of the word-operator tokens: canonical> <... re-spelling>  *)
 let str_of_name (s : string) : n list = List.init (String.length s) (fun i -> n_of_int (Char.code s.[i]))
 
 let parse_expr (s : string) : expr =
@@ -56,9 +61,19 @@ let kinds_str segs =
   let ks = List.filter_map (fun s -> match s with Tok (k, _) -> Some (string_of_int (int_of_nat k)) | Drop _ -> None) segs in
   if ks = [] then "-" else String.concat "," ks
 
+let flags_str segs =
+  let fl = neg_flags segs in
+  if fl = [] then "-" else String.concat "" (List.map (fun b -> if b then "1" else "0") fl)
+
 let () =
   iter_lines (fun line ->
     match split_ws line with
+    | "K" :: _stream :: _cls :: _store :: hcanon :: hresp :: _ ->
+        let sc = lex_full (bytes_of_hex hcanon) in
+        let sr = lex_full (bytes_of_hex hresp) in
+        let same = drops_of sc = [] && drops_of sr = [] && norm sc = norm sr in
+        Printf.printf "K %s %d %d %s %s\n" (kinds_str sr) (List.length (drops_of sr)) (if same then 1 else 0)
+          (flags_str sc) (flags_str sr)
     | kind :: _stream :: _mode :: hfilter :: pre :: atomstr :: rest when kind = "S" || kind = "W" ->
         let atoms = List.map str_of_name (String.split_on_char ',' atomstr) in
         let k = List.length atoms in
